@@ -25,6 +25,13 @@ Abstract world (JSON):
          phylib's string comparison rejects it (fail-safe: RuntimeError, never a normal return), and
          which of "correct"/"wrong" it is is a matter of checksum-file format, outside the reading
          like the bare digest followed by a newline (ASSUMES).
+         Stage 6 axes (also folded): 'local' = the final component of output_path (the URL's own basename, or a
+         name the checksum file does not list / without extension / differing in case), 'pathform' = how
+         output_path is passed (absolute str, pathlib.Path, relative to the cwd, './'-relative), 'xfer' = how the
+         server transfers the 200 bodies (identity with Content-Length, no Content-Length, Content-Encoding gzip /
+         deflate negotiated on the request's Accept-Encoding -- data URL only or checksum URL too --, HTTP/1.1
+         chunked, gzip + chunked).  The property speaks of the bytes of the published file, not of their transfer
+         coding: the same abstract world, the same model answer.
 """
 import hashlib
 import io
@@ -33,6 +40,7 @@ import os
 import shutil
 import tempfile
 import threading
+import zlib
 
 from .. import coqenc as q
 
@@ -104,12 +112,17 @@ for _k in BODY_KINDS:
 
 assert hashlib.md5(_BAD_BYTES).hexdigest().upper() != hashlib.md5(_BAD_BYTES).hexdigest()
 
-FMTS = ['bare', 'md5sum', 'space']
+FMTS = ['bare', 'md5sum', 'space', 'md5sum-bin']
 MISSINGS = ['404', '500', 'empty', 'drop']
 ERRS = [404, 500, 403]
 HEADS = ['ok', '404', 'nolen', 'drop', 'short']
 WRONGS = ['md5', 'trunc', 'long', 'nonhex', 'upper']      # spellings of the wrong checksum 'bad'
-DEFAULT_CFG = {'bodies': 'small', 'fmt': 'md5sum', 'missing': '404', 'err': 404, 'head': 'ok', 'wrong': 'md5'}
+LOCALS = ['same', 'other', 'noext', 'case']                 # final component of output_path
+LOCAL_NAME = {'same': 'data.bin', 'other': 'session1_raw.dat', 'noext': 'download', 'case': 'Data.BIN'}
+PATHFORMS = ['str', 'Path', 'rel', 'reldot']
+XFERS = ['identity', 'gzip', 'nolen', 'deflate', 'chunked', 'gzip-all', 'gzip-chunked']
+DEFAULT_CFG = {'bodies': 'small', 'fmt': 'md5sum', 'missing': '404', 'err': 404, 'head': 'ok', 'wrong': 'md5',
+               'local': 'same', 'pathform': 'str', 'xfer': 'identity'}
 
 
 def _wrong_text(kind, good_hex):
@@ -132,16 +145,19 @@ def _wrong_text(kind, good_hex):
 def _cfg(i):
     """A deterministic rotation through the configuration axes (every value of every axis occurs)."""
     return {'bodies': BODY_KINDS[i % 4],            # 'big' is added explicitly (1 MiB transfers)
-            'fmt': FMTS[(i // 2) % 3],
+            'fmt': FMTS[(i // 2) % 3] if i % 8 != 5 else 'md5sum-bin',
             'missing': MISSINGS[(i // 3) % 4],
             'err': ERRS[(i // 5) % 3],
             'head': HEADS[(i // 7) % 5],
-            'wrong': WRONGS[(i // 4) % 5]}
+            'wrong': WRONGS[(i // 4) % 5],
+            'local': LOCALS[(3 * i + i // 4) % 4],
+            'pathform': PATHFORMS[(i + i // 3) % 4],
+            'xfer': XFERS[(5 * i + i // 7) % 7]}
 
 
 def _world(data, sums, rest, prior, cfg=None):
     return {'kind': 'download', 'inp': {'data': list(data), 'sums': list(sums), 'rest': rest, 'prior': prior,
-                                        'cfg': dict(cfg or DEFAULT_CFG)}}
+                                        'cfg': dict(DEFAULT_CFG, **(cfg or {}))}}
 
 
 def _scripts(alphabet, maxlen):
@@ -175,12 +191,30 @@ CORPUS = [
     (['G'], ['none', 'none'], 'ok', 'P'),        # missing for pre-check and verification: accepted unverified
 ]
 
+# stage 6: forced instances of the axes "local file name", "form of output_path", "transfer coding"
+CORPUS6 = [
+    # the file is saved under another name than the one the md5sum-format checksum file lists: still verified
+    (['C1', 'C2'], [], 'ok', 'absent', {'local': 'other'}),
+    (['C1', 'G'], [], 'ok', 'P', {'local': 'other', 'fmt': 'md5sum-bin', 'pathform': 'Path'}),
+    (['C1', 'C1'], [], 'ok', 'absent', {'local': 'noext', 'fmt': 'space', 'pathform': 'rel'}),
+    ([], [], 'ok', 'G', {'local': 'case', 'pathform': 'reldot'}),
+    # a correct file transferred with Content-Encoding gzip / deflate / chunked: accepted after ONE download
+    (['G'], [], 'ok', 'absent', {'xfer': 'gzip', 'bodies': 'chunky'}),
+    (['G'], [], 'ok', 'P', {'xfer': 'gzip-all'}),
+    (['C1', 'G'], [], 'ok', 'absent', {'xfer': 'deflate', 'bodies': 'edge'}),
+    (['G'], [], 'none', 'absent', {'xfer': 'gzip-chunked', 'bodies': 'chunky'}),
+    (['C1', 'G'], [], 'ok', 'absent', {'xfer': 'chunked', 'bodies': 'chunky'}),
+    (['G'], [], 'ok', 'absent', {'xfer': 'nolen', 'bodies': 'emptygood'}),
+]
+
 
 def generate(tier, rng):
     cases = []
     for n, (d, s, r, p) in enumerate(CORPUS):
         cases.append(_world(d, s, r, p))
         cases.append(_world(d, s, r, p, _cfg(n + 1)))
+    for d, s, r, p, c in CORPUS6:
+        cases.append(_world(d, s, r, p, c))
     for wk in WRONGS[1:]:
         # a published checksum that is not a well-formed lower-case MD5 is still a published checksum
         c = dict(DEFAULT_CFG, wrong=wk)
@@ -240,7 +274,8 @@ def _random_world(rng, i):
     r = rng.choice(['ok', 'ok', 'bad', 'none', 'c1'])
     p = rng.choice(['absent', 'G', 'P', 'C1', 'C2'])
     c = {'bodies': rng.choice(BODY_KINDS[:4] * 6 + ['big']), 'fmt': rng.choice(FMTS), 'missing': rng.choice(MISSINGS),
-         'err': rng.choice(ERRS), 'head': rng.choice(HEADS), 'wrong': rng.choice(WRONGS)}
+         'err': rng.choice(ERRS), 'head': rng.choice(HEADS), 'wrong': rng.choice(WRONGS),
+         'local': rng.choice(LOCALS), 'pathform': rng.choice(PATHFORMS), 'xfer': rng.choice(XFERS)}
     return _world(d, s, r, p, c)
 
 
@@ -250,6 +285,12 @@ _SERVER = None
 _WORLDS = {}          # key -> dict(data=[...], sums=[...], rest=..., cfg=..., bodies=..., nd=0, ns=0, log=[])
 _LOCK = threading.Lock()
 _SEQ = itertools.count()
+_ZCACHE = {}
+
+
+def _gzip(b):
+    import gzip
+    return gzip.compress(b, 1)
 
 
 def _server():
@@ -273,6 +314,53 @@ def _server():
                 self.send_header('Content-Length', str(length))
             self.end_headers()
             if not head:
+                self.wfile.write(body)
+
+        def _send_body(self, w, body, sumfile=False):
+            """A 200 answer under the world's transfer configuration."""
+            mode = w['cfg'].get('xfer', 'identity')
+            if sumfile and mode != 'gzip-all':
+                return self._send(200, body)
+            enc = None
+            accept = self.headers.get('Accept-Encoding', '')
+            if mode in ('gzip', 'gzip-all', 'gzip-chunked') and 'gzip' in accept:
+                enc = 'gzip'
+            elif mode == 'deflate' and 'deflate' in accept:
+                enc = 'deflate'
+            if enc:
+                ck = (w['cfg']['bodies'], enc, body)
+                with _LOCK:
+                    z = _ZCACHE.get(ck)
+                if z is None:
+                    z = _gzip(body) if enc == 'gzip' else zlib.compress(body, 1)
+                    with _LOCK:
+                        if len(_ZCACHE) > 64:
+                            _ZCACHE.clear()
+                        _ZCACHE[ck] = z
+                body = z
+            chunked = mode in ('chunked', 'gzip-chunked')
+            if chunked:
+                self.protocol_version = 'HTTP/1.1'
+            self.send_response(200)
+            self.send_header('Content-Type', 'application/octet-stream')
+            if enc:
+                self.send_header('Content-Encoding', enc)
+            if chunked:
+                self.send_header('Transfer-Encoding', 'chunked')
+                self.send_header('Connection', 'close')
+            elif mode != 'nolen':
+                self.send_header('Content-Length', str(len(body)))
+            self.end_headers()
+            self.close_connection = True
+            if chunked:
+                pos, step = 0, 1
+                while pos < len(body):
+                    piece = body[pos:pos + step]
+                    self.wfile.write(b'%x\r\n' % len(piece) + piece + b'\r\n')
+                    pos += step
+                    step = min(step * 7 + 3, 65536)
+                self.wfile.write(b'0\r\n\r\n')
+            else:
                 self.wfile.write(body)
 
         def _drop(self):
@@ -323,7 +411,7 @@ def _server():
                 elif r == 'E':
                     self._send(int(w['cfg']['err']), b'<html>error</html>')
                 else:
-                    self._send(200, w['bodies'][r])
+                    self._send_body(w, w['bodies'][r])
             elif name == 'data.bin.md5':
                 with _LOCK:
                     k = w['ns']
@@ -344,8 +432,9 @@ def _server():
                     else:
                         hx = hashlib.md5(w['bodies'][{v: k_ for k_, v in BODY_TOK.items()}[SUM_TOK[r]]]).hexdigest()
                     fmt = w['cfg']['fmt']
-                    txt = hx if fmt == 'bare' else hx + '  data.bin\n' if fmt == 'md5sum' else hx + ' data.bin'
-                    self._send(200, txt.encode('ascii'))
+                    txt = (hx if fmt == 'bare' else hx + '  data.bin\n' if fmt == 'md5sum' else
+                           hx + ' *data.bin\n' if fmt == 'md5sum-bin' else hx + ' data.bin')
+                    self._send_body(w, txt.encode('ascii'), sumfile=True)
             else:
                 with _LOCK:
                     w['log'].append('?' + name)
@@ -373,8 +462,21 @@ def run_case(case):
     _WORLDS[key] = w
     base = os.environ.get('VT_WORK') or tempfile.gettempdir()
     d = tempfile.mkdtemp(prefix='c20_', dir=base)
+    cwd0 = None
     try:
-        path = os.path.join(d, 'data.bin')
+        local = LOCAL_NAME[cfg.get('local', 'same')]
+        path = os.path.join(d, local)
+        form = cfg.get('pathform', 'str')
+        if form in ('rel', 'reldot'):
+            # relative output_path: the worker runs its cases one after the other, the cwd is restored below
+            cwd0 = os.getcwd()
+            os.chdir(d)
+            arg = local if form == 'rel' else os.path.join('.', local)
+        elif form == 'Path':
+            import pathlib
+            arg = pathlib.Path(path)
+        else:
+            arg = path
         if i['prior'] != 'absent':
             with open(path, 'wb') as f:
                 f.write(bodies[i['prior']])
@@ -384,9 +486,9 @@ def run_case(case):
         out = io.StringIO()
         with contextlib.redirect_stdout(out):
             try:
-                ret = download_file(url, path)
+                ret = download_file(url, arg)
                 outcome = 'ret'
-                retval = 'none' if ret is None else 'path' if str(ret) == path else 'other'
+                retval = 'none' if ret is None else 'path' if str(ret) == str(arg) else 'other'
             except requests.exceptions.HTTPError:
                 outcome, retval = 'http', ''
             except RuntimeError as e:
@@ -401,11 +503,13 @@ def run_case(case):
                     tok = BODY_TOK[name]
         else:
             tok = None
-        extra = sorted(x for x in os.listdir(d) if x != 'data.bin')
+        extra = sorted(x for x in os.listdir(d) if x != local)
         with _LOCK:
             log = list(w['log'])
         return (outcome, retval, tok, ''.join(x if len(x) == 1 else '?' for x in log), extra)
     finally:
+        if cwd0 is not None:
+            os.chdir(cwd0)
         _WORLDS.pop(key, None)
         shutil.rmtree(d, ignore_errors=True)
 
@@ -452,7 +556,9 @@ def dist(case, obs):
     out = ['data_len=%d' % len(i['data']), 'prior=' + i['prior'],
            'sums=' + ('const:' + i['rest'] if not i['sums'] else 'varying'),
            'cfg.bodies=' + i['cfg']['bodies'], 'cfg.fmt=' + i['cfg']['fmt'], 'cfg.missing=' + i['cfg']['missing'],
-           'cfg.err=%s' % i['cfg']['err'], 'cfg.head=' + i['cfg']['head']]
+           'cfg.err=%s' % i['cfg']['err'], 'cfg.head=' + i['cfg']['head'],
+           'cfg.local=' + i['cfg'].get('local', 'same'), 'cfg.pathform=' + i['cfg'].get('pathform', 'str'),
+           'cfg.xfer=' + i['cfg'].get('xfer', 'identity')]
     if 'bad' in i['sums'] or i['rest'] == 'bad':
         out.append('cfg.wrong=' + i['cfg'].get('wrong', 'md5'))
     if obs[0] == 'crash':
